@@ -9,7 +9,7 @@
     interpreter != spec, compiled != spec (hence interpreter != compiled) on a vector inside the domain is a VIOLATION,
     except the exact signatures listed in known_findings.json.
 Python is glue: it chooses random inputs, renders values and decodes output text; it computes no expected result."""
-import json, os, random, re, shutil, concurrent.futures as cf
+import json, os, random, re, shutil, time, concurrent.futures as cf
 from .. import build, tlc, known, functorvec as fv
 from ..common import SPEC, REPO, workdir, seed, Result, write_data, log, NCPU
 from ..common import run as sh
@@ -195,9 +195,11 @@ def run(tier, replay=None):
     if replay:
         return run_replay(res, wd, replay)
     check_enumerators(res)
+    t0 = time.time()
     vecs, tr = spec_vectors(wd, tier, res, per_op=(10 if tier == "quick" else 1500))
     if vecs is None:
         return finish(res, "model_checking")
+    log("C24: TLC evaluated %d vectors in %.0f s" % (len(vecs), time.time() - t0))
     fams = plan(vecs, tier, res)
     return execute(res, wd, fams, tier)
 
@@ -216,7 +218,9 @@ def execute(res, wd, fams, tier):
     ctx = {}
     frange_stuck = None
     with cf.ThreadPoolExecutor(max(2, min(10, NCPU // 2))) as pool:
+        t0 = time.time()
         results = list(pool.map(run_backend, jobs))
+        log("C24: %d programs compiled and run in both back-ends in %.0f s" % (len(dirs), time.time() - t0))
     if "frange" in dirs:
         ctx["frange_args_not_bitcast"] = frange_args_not_bitcast(dirs["frange"][0])
     for fam, backend, out, err in results:
@@ -333,7 +337,9 @@ def execute(res, wd, fams, tier):
                     "instances_run_per_backend": ninst,
                     "instances_as_program_text_facts": sum(1 for f in fams.values() for u in f for i in u["inst"] if i["path"] == "text"),
                     "backends": ["interpreter", "compiled (souffle -o)"], "compiled_programs": len(dirs),
-                    "enumerators_outside_the_specification": fv.NOT_SPECIFIED})
+                    "enumerators_outside_the_specification": fv.NOT_SPECIFIED,
+                    "value_notation": "unsigned values are shown as their signed twins (same 32 bits); floats as [\"fin\", m, e] = "
+                                      "m*2^e, [\"zero\", s], [\"inf\", s], [\"nan\"] with s the sign bit"})
     return finish(res, "model_checking", assumptions=[
         "spec/Functors.tla, Word32.tla, Dyadic.tla are the documented value semantics (pinned by reading Engine.cpp, "
         "Synthesiser.cpp, EvaluatorUtil.h)",
